@@ -11,7 +11,7 @@ Default == [group |-> "default", titleWords |-> 5, abstract |-> "text20", keywor
             table |-> [present |-> TRUE, desc |-> TRUE, size |-> TRUE, auth |-> TRUE, nrec |-> TRUE, delim |-> TRUE, attrMethods |-> "none"], other |-> "absent",
             party |-> [el |-> "creator", userId |-> "orcid", email |-> TRUE, given |-> TRUE]]
 Abstracts == {"absent", "text19", "text20", "text21", "para19", "para20", "split19", "split20", "markdown20", "section-para20", "para-inline-only+para20",
-              "para-inline-only", "para-empty"}
+              "para-inline-only", "para-empty", "para-list19", "para-list20"}      \* para-list: part of the words sit in paragraphs of lists nested inside a paragraph
 (* source: a dataSource (an element with the content model of a dataset) nested in the methods of the dataset or of its
    table - "rich" has everything a dataset is recommended to have, "bare" has nothing of it.  What a nested data source
    has or lacks says nothing about the dataset around it. *)
